@@ -496,3 +496,37 @@ func vh_C20_L11_callback_never_under_a_lock() { vh_C15_L9_callback_is_never_invo
 func vh_C20_L11_handshake_result_before_the_caller_waits() {
 	vh_C04_L7_handshake_result_waits_for_the_connect_call()
 }
+
+// C20.L12: callers parked in the API are not forgotten: the gate of blocking-write mode opens
+// also when the last waiting chunk leaves as the window probe (= C18.L2); a reader whose last
+// read timed out still learns that the association ended (= C08.L6); every writer parked
+// behind the gate is released when the association leaves ESTABLISHED (= C18.L6).
+func vh_C20_L12_gate_opens_when_the_probe_leaves()          { vh_C18_L2_block_write_gate() }
+func vh_C20_L12_teardown_error_reaches_a_timed_out_reader() { vh_C08_L6_closure_error_replaces_deadline_error() }
+func vh_C20_L12_every_parked_writer_is_released()           { vh_C18_L6_every_parked_writer_is_released_at_shutdown() }
+
+// C20.L13: every message that becomes readable wakes a reader. Two or three goroutines are
+// parked in Read on one stream (ghost waiters of the stream's condition variable); two
+// messages for the stream arrive in one packet (nobody runs between the two chunks): two of
+// the parked readers are woken, one per message - the second message is not left to a reader
+// that is still asleep.
+func vh_C20_L13_each_readable_message_wakes_a_reader() {
+	il := vPick(2) == 1
+	a, _ := vNewAssocOpts(vAssocOpts{interleaving: il})
+	s, err := a.OpenStream(4, PayloadTypeWebRTCBinary)
+	vassert(err == nil, "open stream")
+	cum := a.peerLastTSN()
+	readers := 2 + vPick(2)
+	vCondPark(s.readNotifier, readers)
+	unordered := vPick(2) == 1
+	c1 := vDataChunk(a, cum+1, 4, unordered, 1)
+	c2 := vDataChunk(a, cum+2, 4, unordered, 1)
+	c2.streamSequenceNumber, c2.messageIdentifier = 1, 1
+	pkt := &packet{verificationTag: a.myVerificationTag, sourcePort: a.destinationPort, destinationPort: a.sourcePort}
+	a.handleChunksStart()
+	vassert(a.handleChunk(pkt, c1) == nil && a.handleChunk(pkt, c2) == nil, "DATA ok")
+	a.handleChunksEnd()
+	vassert(s.getNumBytesInReassemblyQueue() == 2 && s.reassemblyQueue.isReadable(), "both messages are waiting to be read")
+	vassert(vCondParked(s.readNotifier) == readers-2, "two messages wake two of the parked readers")
+	vcover("end")
+}
